@@ -682,4 +682,14 @@ MUTANTS = [
             (Some(rename), None) => self.rename = Some(rename),
             (None, _) => {}
         }""")]},
+    {"id": "keep-c17-or-pattern-merge", "kind": "preserving", "props": [], "edits": [
+        ("src/errors/json.rs", """            [ValueKind::Integer | ValueKind::NegativeInteger, ValueKind::Float, rest @ ..] => {
+                ("a number".to_owned(), rest)
+            }
+            [ValueKind::Integer, ValueKind::NegativeInteger, ValueKind::Float, rest @ ..] => {
+                ("a number".to_owned(), rest)
+            }""", """            [ValueKind::Integer | ValueKind::NegativeInteger, ValueKind::Float, rest @ ..]
+            | [ValueKind::Integer, ValueKind::NegativeInteger, ValueKind::Float, rest @ ..] => {
+                ("a number".to_owned(), rest)
+            }""")]},
 ]
